@@ -10,7 +10,7 @@ import traceback
 
 import sympy as sp
 
-from . import REPO, SRC, VERIF, prover
+from . import EVDIR, REPO, SRC, VERIF, prover
 
 EXIT_OK, EXIT_VIOLATION, EXIT_UNDECIDED, EXIT_CRASH = 0, 1, 2, 3
 
@@ -121,13 +121,16 @@ class Check:
         self.vacuity = {"covers_sat": 0, "planted_refuted": 0, "failed": []}
         self.notes = []
         self.expected = self._load_expected()
-        os.makedirs(os.path.join(VERIF, "evidence", "replays"), exist_ok=True)
+        os.makedirs(os.path.join(EVDIR, "replays"), exist_ok=True)
 
     def _load_expected(self):
         p = os.path.join(VERIF, "contracts", "expected_obligations.json")
         if os.path.exists(p):
             with open(p) as f:
-                return json.load(f).get(self.prop, {})
+                rec = json.load(f).get(self.prop, {})
+            self.expected_sources = rec.get("sources", {})
+            return rec.get("obligations", {})
+        self.expected_sources = {}
         return {}
 
     # -- registration helpers
@@ -284,7 +287,7 @@ class Check:
             "replay_cmd": "./check replay <this file>",
         }
         h = hashlib.sha1(json.dumps(body, sort_keys=True, default=str).encode()).hexdigest()[:10]
-        path = os.path.join(VERIF, "evidence", "replays", "%s-%s.json" % (self.prop, h))
+        path = os.path.join(EVDIR, "replays", "%s-%s.json" % (self.prop, h))
         with open(path, "w") as f:
             json.dump(body, f, indent=1, default=str)
         return path
@@ -366,12 +369,20 @@ class Check:
             lines.append("SELF-CHECK FAILED: zero obligations generated")
             code = EXIT_CRASH
         # obligation floor: on the unchanged tree nothing may silently slide out of the proof
-        missing = [k for k, v in self.expected.items() if v == "discharged" and not any(o.id.split("/", 1)[1] == k for o in self.obs)]
-        if missing and code == EXIT_OK and not self.undecided:
-            lines.append("SELF-CHECK FAILED: expected obligations not generated: %s" % ", ".join(missing[:5]))
+        have = {o.id.split("/", 1)[1] for o in self.obs}
+        missing = [k for k, v in self.expected.items() if v == "discharged" and k not in have]
+        sources_same = all(self.files.get(rel) == h for rel, h in self.expected_sources.items()) and bool(self.expected_sources)
+        if missing and sources_same and code == EXIT_OK and not self.undecided:
+            # same sources, fewer obligations: the machinery itself lost something
+            lines.append("SELF-CHECK FAILED: expected obligations not generated on unchanged sources: %s" % ", ".join(missing[:5]))
             code = EXIT_CRASH
+        elif missing and not self.violations:
+            # changed sources: the code under contract no longer has the shape the contract binds to -- undecided, never a violation
+            for k in missing[:8]:
+                lines.append("UNDECIDED property=%s obligation=%s/%s not generated on the changed source (the function or path the contract binds to is gone)" % (self.prop, self.prop, k))
+            self.missing_expected = missing
         level = self.level
-        all_ok = (nd == n) and not self.undecided
+        all_ok = (nd == n) and not self.undecided and not getattr(self, "missing_expected", None)
         if level == "proof" and (not all_ok or self.violations):
             level = "other"
         kf_rows = [{"obligation": o.id, "what": k.get("what")} for o, k in self.known_hits]
@@ -388,7 +399,7 @@ class Check:
             "bounded_standins": self.bounded,
             "fragile_guards": self.fragile,
             "known_findings_hit": kf_rows,
-            "undecided": [o.id for o in self.undecided],
+            "undecided": [o.id for o in self.undecided] + ["%s/%s (not generated)" % (self.prop, k) for k in getattr(self, "missing_expected", [])],
             "vacuity_guards": self.vacuity,
             "samples": self.samples[:6] or [{"note": "no discharged obligation"}],
             "explanation": explanation or ("%d of %d obligations discharged on the real source; bounded stand-ins and known findings are listed separately and never counted as discharged" % (nd, n)),
@@ -407,8 +418,8 @@ class Check:
             "wall_s": round(time.time() - self.t0, 2),
             "violations": len(self.violations),
         }
-        os.makedirs(os.path.join(VERIF, "evidence"), exist_ok=True)
-        with open(os.path.join(VERIF, "evidence", "%s.json" % self.prop), "w") as f:
+        os.makedirs(EVDIR, exist_ok=True)
+        with open(os.path.join(EVDIR, "%s.json" % self.prop), "w") as f:
             json.dump(ev, f, indent=1, default=str)
         for ln in lines:
             print(ln)
